@@ -93,7 +93,7 @@ def run_model(cases, artifacts=True):
             raise Broken("model-driver", "no model output for %s" % c.name)
 
 
-def run_impl(cases, workdir, batch_size=6, profile="debug", compile_timeout=240, extra_parens=None,
+def run_impl(cases, workdir, batch_size=6, profile="debug", compile_timeout=100, extra_parens=None,
              run_timeout_ms=5000):
     """Compiles (real macro inside rustc) and runs. Fills c.impl, c.impl_runs, c.compile_error."""
     paths = build_repo(profile)
